@@ -54,7 +54,10 @@ def convert_telegram_url_to_public(url):
 
     has_protocol = safe_url == url
 
-    scheme, netloc, path, query, fragment = urlsplit(safe_url)
+    try:
+        scheme, netloc, path, query, fragment = urlsplit(safe_url)
+    except ValueError:
+        netloc = ""
 
     if not is_telegram_url(netloc):
         raise TypeError(
@@ -87,12 +90,19 @@ def parse_telegram_url(url):
     if not is_telegram_url(url):
         return None
 
-    parsed = safe_urlsplit(url)
+    try:
+        parsed = safe_urlsplit(url)
+    except ValueError:
+        return None
+
     path = pathsplit(parsed.path)
 
     if path:
 
         if path[0] == "s":
+
+            if len(path) < 2:
+                return None
 
             if path[1] == "joinchat":
                 if len(path) == 3:
